@@ -169,6 +169,19 @@ pub fn read_range(range: &HandRange) -> Content {
     range.card_pairs().iter().map(|(p, w)| (crate::conv::pid_of(p), *w)).collect()
 }
 
+/// Two keys of the range that are the same two cards (a range keyed by pairs must never hold a combo
+/// twice; seen only if a pair escaped normalisation).
+pub fn duplicate_physical_combo(range: &HandRange) -> Option<String> {
+    let mut seen: std::collections::BTreeMap<Pid, String> = std::collections::BTreeMap::new();
+    for p in range.card_pairs().keys() {
+        let id = crate::conv::pid_of(p);
+        if let Some(prev) = seen.insert(id, format!("{:?}", p)) {
+            return Some(format!("{} and {:?} are the same two cards", prev, p));
+        }
+    }
+    None
+}
+
 /// Same keys and bit-identical weights.
 pub fn same_content(a: &Content, b: &Content) -> bool {
     a.len() == b.len() && a.iter().zip(b.iter()).all(|((p, w), (q, v))| p == q && w.to_bits() == v.to_bits())
